@@ -15,6 +15,7 @@
 -/
 import Influx.Lemmas.InfluxQL
 import Influx.Lemmas.InfluxQLMerge
+import Influx.Lemmas.InfluxQLReduce
 
 namespace Influx.Props.C22
 open Influx.Reducers Influx.Spec.C22 Influx.InfluxQLPipe Influx.InfluxQLPipe.Lemmas
@@ -286,6 +287,150 @@ theorem C22_raw_merge (A : Arith22 V F) (q : Query) (db : List (Series V))
         simp only [limitOffset]
         split <;> simp [List.map_drop, List.map_take, Function.comp_def, toSP]
   · simp [hsup]
+
+/-! ### call iterators over GROUP BY time window boundaries -/
+
+theorem wsOf_mono (o : Opt) (hd : 0 < o.dur) (t u : Int) (h : t ≤ u) : wsOf o t ≤ wsOf o u := by
+  rw [wsOf_eq_mul, wsOf_eq_mul]
+  have h1 : (t - o.off) / o.dur ≤ (u - o.off) / o.dur := Int.ediv_le_ediv hd (by omega)
+  have := Int.mul_le_mul_of_nonneg_left h1 (by omega : (0 : Int) ≤ o.dur)
+  omega
+
+/-- **call-iterator stage** (`xReduceYIterator.reduce` + `IteratorOptions.Window`) over one
+    stored series, GROUP BY time(d, off), either direction: for ANY reducer `emit`, the
+    iterator emits, for each distinct window start of the looked-at points in statement
+    order, `emit start (the points of that window)` — exactly the window partition the
+    reference evaluator uses (`winStart`, `dedupAdj`, `filter`). -/
+theorem C22_call_iterator_stage {β : Type} (q : Query) (s : Series V) (hs : Stored s) (hd : 0 < q.dur)
+    (hc : ∀ p ∈ seriesPoints q s, NoClamp (optOf q) p.t) (tg : Option String)
+    (emit : Int → List (SP (Val V F)) → SP β) :
+    let wrap : Pt V → SP (Val V F) := fun p => { tag := tg, t := p.t, v := Val.v p.v }
+    reduceStream (optOf q) emit ((seriesPoints q s).map wrap) =
+      (dedupAdj ((seriesPoints q s).map fun p => winStart q p.t)).map fun w =>
+        emit w (((seriesPoints q s).filter fun p => decide (winStart q p.t = w)).map wrap) := by
+  intro wrap
+  have hd' : 0 < (optOf q).dur := hd
+  have hkey : ∀ p : Pt V, wsOf (optOf q) (wrap p).t = winStart q p.t := fun p => rfl
+  rw [reduceStream_runs (optOf q) hd' emit tg _
+    (by intro p hp; obtain ⟨x, _, rfl⟩ := List.mem_map.mp hp; rfl)
+    (by intro p hp; obtain ⟨x, hx, rfl⟩ := List.mem_map.mp hp; exact hc x hx)
+    (by intro p hp; obtain ⟨x, _, rfl⟩ := List.mem_map.mp hp; rfl)]
+  -- the window starts advance monotonically along the series
+  have hstrict := seriesPoints_strict q s hs
+  by_cases hdesc : q.desc = true
+  · have hpw : List.Pairwise (fun (a b : SP (Val V F)) =>
+        wsOf (optOf q) a.t = wsOf (optOf q) b.t ∨ wsOf (optOf q) b.t < wsOf (optOf q) a.t)
+        ((seriesPoints q s).map wrap) := by
+      rw [List.pairwise_map]
+      refine hstrict.imp ?_
+      intro a b hab
+      simp only [tBefore, hdesc, Bool.not_true, Bool.false_eq_true, if_false] at hab
+      have := wsOf_mono (optOf q) hd' b.t a.t (by omega)
+      show wsOf (optOf q) a.t = wsOf (optOf q) b.t ∨ wsOf (optOf q) b.t < wsOf (optOf q) a.t
+      omega
+    rw [runs_sorted (fun (p : SP (Val V F)) => wsOf (optOf q) p.t) (fun x y => y < x)
+      (by intro x; omega) (by intro x y z h1 h2; omega) _ hpw]
+    simp only [List.map_map, List.filter_map, Function.comp_def, hkey]
+  · have hpw : List.Pairwise (fun (a b : SP (Val V F)) =>
+        wsOf (optOf q) a.t = wsOf (optOf q) b.t ∨ wsOf (optOf q) a.t < wsOf (optOf q) b.t)
+        ((seriesPoints q s).map wrap) := by
+      rw [List.pairwise_map]
+      refine hstrict.imp ?_
+      intro a b hab
+      have hdesc' : q.desc = false := by simpa using hdesc
+      simp only [tBefore, hdesc', Bool.not_false, if_true] at hab
+      have := wsOf_mono (optOf q) hd' a.t b.t (by omega)
+      show wsOf (optOf q) a.t = wsOf (optOf q) b.t ∨ wsOf (optOf q) a.t < wsOf (optOf q) b.t
+      omega
+    rw [runs_sorted (fun (p : SP (Val V F)) => wsOf (optOf q) p.t) (fun x y => x < y)
+      (by intro x; omega) (by intro x y z h1 h2; omega) _ hpw]
+    simp only [List.map_map, List.filter_map, Function.comp_def, hkey]
+
+/-! ### the reducers' values are the reference evaluator's aggregates -/
+
+/-- selector / sum fold of the Func reducer simulates the specification's fold -/
+theorem funcFold_selector (A : Arith22 V F) (a : Agg) (hsel : isSelector a = true) (tg : Option String)
+    (ps : List (Pt V)) : ∀ (st : SP (Val V F)) (pt : Pt V), st.t = pt.t → st.v = Val.v pt.v →
+      let wrap : Pt V → SP (Val V F) := fun p => { tag := tg, t := p.t, v := Val.v p.v }
+      let r := (ps.map wrap).foldl (fun st c =>
+        let r := selFn A a st c; { st with t := r.1, v := r.2, agg := st.agg + aggInc c }) st
+      let r' := ps.foldl (fun p c => if better A a c p then c else p) pt
+      r.t = r'.t ∧ r.v = Val.v r'.v := by
+  induction ps with
+  | nil => intro st pt h1 h2; exact ⟨h1, h2⟩
+  | cons c cs ih =>
+    intro st pt h1 h2
+    simp only [List.map_cons, List.foldl_cons]
+    have hstep : selFn A a st ({ tag := tg, t := c.t, v := Val.v c.v } : SP (Val V F)) =
+        if better A a c pt then (c.t, Val.v c.v) else (pt.t, Val.v pt.v) := by
+      cases a <;> simp [isSelector] at hsel <;> simp only [selFn, better, h1, h2, vLt, vEq] <;> rfl
+    by_cases hb : better A a c pt = true
+    · simp only [hb, if_true] at hstep ⊢
+      apply ih
+      · simp [hstep]
+      · simp [hstep]
+    · simp only [hb, if_false] at hstep ⊢
+      apply ih
+      · simp [hstep]
+      · simp [hstep]
+
+theorem funcFold_sum (A : Arith22 V F) (tg : Option String) (ps : List (Pt V)) :
+    ∀ (st : SP (Val V F)) (x : V), st.v = Val.v x →
+      let wrap : Pt V → SP (Val V F) := fun p => { tag := tg, t := p.t, v := Val.v p.v }
+      ((ps.map wrap).foldl (fun st c =>
+        let r := selFn A .sum st c; { st with t := r.1, v := r.2, agg := st.agg + aggInc c }) st).v =
+        Val.v ((ps.map (·.v)).foldl A.vo.add x) := by
+  induction ps with
+  | nil => intro st x h; exact h
+  | cons c cs ih =>
+    intro st x h
+    simp only [List.map_cons, List.foldl_cons]
+    apply ih
+    simp [selFn, vAdd, h]
+
+/-- **reducer stage**: over the points of one window of one series, the first-level call
+    iterator's reducer (`XFuncReducer` with `XCountReduce`/`XSumReduce`/`XMinReduce`/…)
+    yields the reference evaluator's aggregate value (`aggVal`), for count, sum, min, max,
+    first, last. -/
+theorem C22_reducer_value (A : Arith22 V F) (a : Agg) (ha : a ≠ Agg.mean) (tg : Option String) (w : Int)
+    (pts : List (Pt V)) (hne : pts ≠ []) :
+    (emitOf A a true w (pts.map fun p => ({ tag := tg, t := p.t, v := Val.v p.v } : SP (Val V F)))).v =
+      aggVal A a [pts] := by
+  obtain ⟨p, ps, rfl⟩ : ∃ p ps, pts = p :: ps := by
+    cases pts with
+    | nil => exact absurd rfl hne
+    | cons p ps => exact ⟨p, ps, rfl⟩
+  cases a with
+  | mean => exact absurd rfl ha
+  | count => simp [emitOf, aggVal]
+  | sum =>
+    simp only [emitOf, funcReduce, List.map_cons, aggVal, List.filterMap_cons, List.filterMap_nil, fold1]
+    simp only [selFirst, isSelector, Bool.false_eq_true, if_false]
+    exact funcFold_sum A tg ps _ p.v rfl
+  | min =>
+    have h := funcFold_selector A .min rfl tg ps
+      ({ tag := tg, t := p.t, v := Val.v p.v, agg := aggInc ({ tag := tg, t := p.t, v := Val.v p.v } : SP (Val V F)) }) p rfl rfl
+    simp only [emitOf, funcReduce, List.map_cons, selFirst, isSelector, if_true, aggVal, List.flatMap_cons,
+      List.flatMap_nil, List.append_nil, id, select, fold1]
+    simp [h.2]
+  | max =>
+    have h := funcFold_selector A .max rfl tg ps
+      ({ tag := tg, t := p.t, v := Val.v p.v, agg := aggInc ({ tag := tg, t := p.t, v := Val.v p.v } : SP (Val V F)) }) p rfl rfl
+    simp only [emitOf, funcReduce, List.map_cons, selFirst, isSelector, if_true, aggVal, List.flatMap_cons,
+      List.flatMap_nil, List.append_nil, id, select, fold1]
+    simp [h.2]
+  | first =>
+    have h := funcFold_selector A .first rfl tg ps
+      ({ tag := tg, t := p.t, v := Val.v p.v, agg := aggInc ({ tag := tg, t := p.t, v := Val.v p.v } : SP (Val V F)) }) p rfl rfl
+    simp only [emitOf, funcReduce, List.map_cons, selFirst, isSelector, if_true, aggVal, List.flatMap_cons,
+      List.flatMap_nil, List.append_nil, id, select, fold1]
+    simp [h.2]
+  | last =>
+    have h := funcFold_selector A .last rfl tg ps
+      ({ tag := tg, t := p.t, v := Val.v p.v, agg := aggInc ({ tag := tg, t := p.t, v := Val.v p.v } : SP (Val V F)) }) p rfl rfl
+    simp only [emitOf, funcReduce, List.map_cons, selFirst, isSelector, if_true, aggVal, List.flatMap_cons,
+      List.flatMap_nil, List.append_nil, id, select, fold1]
+    simp [h.2]
 
 /-! ## The statement checker accepts the model -/
 
